@@ -113,6 +113,9 @@ CRows == {<<<<1, 0>>, 1>>, <<<<1, 0>>, 2>>, <<<<2, 0>>, 2>>, <<<<-1, 0>>, -1>>, 
           <<<<3, 4>>, 5>>, <<<<0, -3>>, 6>>, <<<<-4, 3>>, -30>>}
 CPolys == UNION {{PolyOfRows(<<r>>) : r \in CRows}, {PolyOfRows(<<r, s>>) : r \in CRows, s \in CRows},
                  IF NP >= 3 THEN {PolyOfRows(<<r, s, u>>) : r \in CRows, s \in CRows, u \in {<<<<1, 0>>, 1>>, <<<<0, 1>>, 0>>, <<<<0, 0>>, 0>>, <<<<3, 4>>, 5>>, <<<<-1, 0>>, -1>>}} ELSE {}}
+\* always included: infeasible systems with a superfluous row (number of rows differs from the dimension)
+CExtra == {PolyOfRows(<<<<<<1, 0>>, 1>>, <<<<0, 0>>, -1>>, <<<<0, 1>>, 0>>>>), PolyOfRows(<<<<<<1, 0>>, -1>>, <<<<-1, 0>>, -1>>, <<<<0, 1>>, 5>>>>),
+           PolyOfRows(<<<<<<3, 4>>, 5>>, <<<<-3, -4>>, -10>>, <<<<1, 0>>, 1>>, <<<<0, 1>>, 0>>>>)}
 CleanOps == {"remove_tautologies", "remove_duplicate_rows", "remove_redundant", "normalize", "remove_zero_rows", "remove_rows"}
 
 \* ---------------------------------------------------------------- affine algebra (C16)
@@ -190,10 +193,14 @@ PolyStep == \E s \in PolySteps :
     /\ prev' = reg /\ reg' = Do(reg, s) /\ last' = s
     /\ hist' = [hist EXCEPT !.pipe = Append(hist.pipe, s)]
     /\ stage' = IF DepthOf = 0 THEN "p1" ELSE IF DepthOf = 1 THEN "p2" ELSE "p3"
-CleanStart == \E p \in CPolys, o \in CleanOps, rs \in {<<0>>, <<1>>, <<0, 2>>, <<>>} :
+\* tiny: the whole system (coefficients and bias) is multiplied by 1e-17 before the call - the same half-spaces with
+\* coefficients below the machine epsilon; the harness logs the rows scaled back
+CleanStart == \E p \in CPolys \cup CExtra, o \in CleanOps, rs \in {<<0>>, <<1>>, <<0, 2>>, <<>>}, tiny \in BOOLEAN :
     /\ stage = "init" /\ MODE = "clean"
+    \* only the operations that test for exact zeros; remove_duplicate_rows compares with an absolute tolerance by design
+    /\ (tiny => o \in {"remove_tautologies", "remove_zero_rows"} /\ Len(p.m) <= 2)
     /\ (o = "remove_rows" => \A i \in 1..Len(rs) : rs[i] < Len(p.m)) /\ (o # "remove_rows" => rs = <<>>)
-    /\ reg' = p /\ prev' = None /\ last' = [op |-> o, rows |-> rs] /\ hist' = [ctor |-> Ctor("rows", [p |-> p]), pipe |-> <<[op |-> o, rows |-> rs, qout |-> IF o = "normalize" THEN 30 ELSE 1]>>]
+    /\ reg' = p /\ prev' = None /\ last' = [op |-> o, rows |-> rs, tiny |-> tiny] /\ hist' = [ctor |-> Ctor("rows", [p |-> p, tiny |-> tiny]), pipe |-> <<[op |-> o, rows |-> rs, qout |-> IF o = "normalize" THEN 30 ELSE 1]>>]
     /\ stage' = "c1"
 AffStart == \E o \in AffOps :
     /\ stage = "init" /\ MODE = "aff" /\ ValidAffOp(o)
